@@ -213,6 +213,9 @@ func init() {
 	reg("internal/godebug.Setting.IncNonDefault", nop)
 	reg("internal/cpu.Initialize", nop)
 
+	reg("runtime/debug.ReadBuildInfo", func(in *Interp, fn *ssa.Function, args []Value) Value {
+		return TupleV{Ptr{}, in.ctx.Bool(false)}
+	})
 	// ---- fmt / errors / log ----
 	reg("fmt.Errorf", func(in *Interp, fn *ssa.Function, args []Value) Value { return in.fmtErrorf(args) })
 	reg("fmt.Sprintf", func(in *Interp, fn *ssa.Function, args []Value) Value {
